@@ -137,7 +137,10 @@ Definition run_rules (prev : option (hstep * obsT)) (s : strat) (f : option (nat
         | _ => []
         end)
     (* rule 8 (C15, C20): whatever the directory holds - torn files included - a run ends with a result, not with a panic *)
-    ++ (if Nat.eqb res 3 then [8] else []).
+    ++ (if Nat.eqb res 3 then [8] else [])
+    (* rule 11 (C03): a certificate a successful run has just written shows the subject, serial number, validity and content of
+       the entity's current configuration - whether its key was generated, reused or taken from a request *)
+    ++ (if Nat.eqb res 1 && negb (has f) && negb (forallb (fun a => bit 9 (fl es a)) w) then [11] else []).
 
 Definition rules_at (prev : option (hstep * obsT)) (st : hstep) (o : obsT) : list nat :=
   match st with
